@@ -175,4 +175,208 @@ theorem redeliverable_aux (hA : A.Lawful) (cfg : Cfg) (hp : cfg.prune = none) {i
   have := deliver_fresh_spec hA cfg hp g0 b p (fun hh => hn (hsub _ hh)) (by rw [ho]; simp) (hrows _ hpr) hv
   exact ⟨this.2.1, this.2.2.1, this.2.2.2⟩
 
+/-! ### the in-memory last flush point is the persisted marker
+
+What `flushNeededAfterPrune` relies on, and what F-C04-b broke.  Purely
+structural: holds for every configuration, pruning included. -/
+
+def LF (nd : Node A) : Prop := nd.lastFlush = nd.img.marker
+
+theorem lf_setStatus {nd : Node A} (a : Chain) (s : Status) (h : LF nd) : LF (setStatus nd a s) := h
+
+theorem lf_flushDirty {nd : Node A} (h : LF nd) : LF (flushDirty nd) := by
+  unfold LF; rw [flushDirty_lastFlush, flushDirty_marker]; exact h
+
+theorem lf_flushIfNeeded (cfg : Cfg) {nd : Node A} (a : Chain) (h : LF nd) : LF (flushIfNeeded cfg nd a) := by
+  unfold flushIfNeeded
+  split
+  · exact h
+  · split
+    · rfl
+    · exact h
+
+theorem lf_flushRequired {nd : Node A} : LF (flushRequired nd) := rfl
+
+theorem lf_connectBlock (cfg : Cfg) {nd : Node A} (n : Chain) (h : LF nd) : LF (connectBlock cfg nd n).1 := by
+  unfold connectBlock
+  split
+  · exact h
+  · simp only
+    have h1 := lf_flushDirty h
+    repeat' split
+    all_goals (apply lf_flushIfNeeded; first | exact h1 | rfl)
+
+theorem lf_disconnectTip {nd : Node A} (h : LF nd) : LF (disconnectTip nd).1 := by
+  unfold disconnectTip
+  split
+  · exact h
+  · split
+    · exact h
+    · rfl
+
+theorem lf_disconnectN (k : Nat) : ∀ (nd : Node A), LF nd → LF (disconnectN k nd).1 := by
+  induction k with
+  | zero => intro nd h; exact h
+  | succ k ih =>
+    intro nd h
+    unfold disconnectN
+    have h1 := lf_disconnectTip h
+    generalize disconnectTip nd = r at h1 ⊢
+    obtain ⟨nd1, ok⟩ := r
+    cases ok with
+    | false => exact h1
+    | true => exact ih nd1 h1
+
+theorem lf_connectAll (cfg : Cfg) (l : List Chain) : ∀ (nd : Node A), LF nd → LF (connectAll cfg l nd).1 := by
+  induction l with
+  | nil => intro nd h; exact h
+  | cons a rest ih =>
+    intro nd h
+    cases a with
+    | nil => exact h
+    | cons b c =>
+      simp only [connectAll]
+      have h1 := lf_connectBlock cfg (nd := { nd with utxo := A.conn b nd.utxo }) (b :: c) h
+      generalize connectBlock cfg { nd with utxo := A.conn b nd.utxo } (b :: c) = r at h1 ⊢
+      obtain ⟨nd1, ok⟩ := r
+      cases ok with
+      | false => exact h1
+      | true => exact ih nd1 h1
+
+theorem lf_markInvAnc (l : List Chain) : ∀ (nd : Node A), LF nd → LF (markInvAnc nd l) := by
+  induction l with
+  | nil => intro nd h; exact h
+  | cons a rest ih => intro nd h; simp only [markInvAnc]; exact ih _ h
+
+theorem lf_verifyAttach (bs : List Blk) : ∀ (nd : Node A) (v : A.U) (cur : Chain), LF nd →
+    LF (verifyAttach nd v cur bs).1 := by
+  induction bs with
+  | nil => intro nd v cur h; exact h
+  | cons b rest ih =>
+    intro nd v cur h
+    simp only [verifyAttach]
+    split
+    · exact h
+    · split
+      · exact ih _ _ _ h
+      · split
+        · exact ih _ _ _ h
+        · exact lf_markInvAnc _ _ h
+
+theorem lf_reorg (cfg : Cfg) {nd : Node A} (n : Chain) (h : LF nd) : LF (reorg cfg nd n).1 := by
+  unfold reorg
+  simp only
+  split
+  · exact lf_flushDirty (lf_markInvAnc _ _ h)
+  · split
+    · exact lf_flushDirty h
+    · have h1 := lf_verifyAttach (blocksAbove n (forkOf nd.tip n).length) nd
+        (discAll nd.utxo nd.tip (nd.tip.length - (forkOf nd.tip n).length)) (forkOf nd.tip n) h
+      generalize verifyAttach nd (discAll nd.utxo nd.tip (nd.tip.length - (forkOf nd.tip n).length))
+        (forkOf nd.tip n) (blocksAbove n (forkOf nd.tip n).length) = r1 at h1 ⊢
+      obtain ⟨nd1, ok⟩ := r1
+      simp only at h1 ⊢
+      cases ok with
+      | false => exact lf_flushDirty h1
+      | true =>
+        simp only [Bool.not_true, Bool.false_eq_true, if_false]
+        have h2 := lf_disconnectN (nd.tip.length - (forkOf nd.tip n).length) nd1 h1
+        generalize disconnectN (nd.tip.length - (forkOf nd.tip n).length) nd1 = r2 at h2 ⊢
+        obtain ⟨nd2, ok2⟩ := r2
+        simp only at h2 ⊢
+        cases ok2 with
+        | false => exact lf_flushDirty h2
+        | true =>
+          simp only
+          have h3 := lf_connectAll cfg (chainsOn (forkOf nd.tip n) (blocksAbove n (forkOf nd.tip n).length)) nd2 h2
+          generalize connectAll cfg (chainsOn (forkOf nd.tip n) (blocksAbove n (forkOf nd.tip n).length)) nd2
+            = r3 at h3 ⊢
+          obtain ⟨nd3, ok3⟩ := r3
+          simp only at h3 ⊢
+          cases ok3 <;> exact lf_flushDirty h3
+
+theorem lf_deliver (cfg : Cfg) {nd : Node A} (b : Blk) (p : Chain) (h : LF nd) : LF (deliver cfg nd b p).1 := by
+  unfold deliver
+  simp only
+  split
+  · exact h
+  · split
+    · exact h
+    · split
+      · exact h
+      · split
+        · exact h
+        · have h3 : LF (flushDirty (setStatus (emit nd (.storeBlock (b :: p))) (b :: p) {})) :=
+            lf_flushDirty (show LF (emit nd (.storeBlock (b :: p))) from h)
+          generalize flushDirty (setStatus (emit nd (.storeBlock (b :: p))) (b :: p) {}) = nd3 at h3 ⊢
+          split
+          · split
+            · have h5 : LF (flushDirty (setStatus nd3 (b :: p) { valid := true })) := lf_flushDirty h3
+              have h6 := lf_connectBlock cfg
+                (nd := { flushDirty (setStatus nd3 (b :: p) { valid := true }) with
+                         utxo := A.conn b (flushDirty (setStatus nd3 (b :: p) { valid := true })).utxo }) (b :: p) h5
+              generalize connectBlock cfg
+                { flushDirty (setStatus nd3 (b :: p) { valid := true }) with
+                  utxo := A.conn b (flushDirty (setStatus nd3 (b :: p) { valid := true })).utxo } (b :: p) = r at h6 ⊢
+              obtain ⟨nd6, ok⟩ := r
+              cases ok with
+              | true => exact h6
+              | false => exact lf_flushDirty h6
+            · exact lf_flushDirty h3
+          · split
+            · exact h3
+            · exact lf_reorg cfg _ h3
+
+theorem lf_step (cfg : Cfg) {nd : Node A} (o : Op) (h : LF nd) : LF (step cfg nd o).1 := by
+  cases o with
+  | deliver b p => exact lf_deliver cfg b p h
+  | flushReq => exact lf_flushRequired
+  | flushIfNeeded => exact lf_flushIfNeeded cfg _ h
+  | flushPeriodic =>
+    show LF (if cfg.cacheAlways then flushRequired nd else emit nd .nop)
+    split
+    · exact lf_flushRequired
+    · exact h
+
+theorem lf_runOps (cfg : Cfg) (ops : List Op) : ∀ (nd : Node A), LF nd → LF (runOps cfg nd ops) := by
+  induction ops with
+  | nil => intro nd h; exact h
+  | cons o rest ih => intro nd h; exact ih _ (lf_step cfg o h)
+
+theorem lf_replayBlocks (cfg : Cfg) (bs : List Blk) : ∀ (cur : Chain) (nd nd' : Node A), LF nd →
+    replayBlocks cfg bs cur nd = .ok nd' → LF nd' := by
+  induction bs with
+  | nil => intro cur nd nd' h r; simp only [replayBlocks] at r; injection r with r; rw [← r]; exact h
+  | cons b rest ih =>
+    intro cur nd nd' h r
+    simp only [replayBlocks] at r
+    split at r
+    · exact absurd r (by simp)
+    · exact ih _ _ _ (lf_flushIfNeeded cfg _ (show LF ({ nd with utxo := A.conn b nd.utxo } : Node A) from h)) r
+
+/-- Start-up establishes it whatever the image (this is the fix of F-C04-b). -/
+theorem lf_initConsistent (cfg : Cfg) {nd nd' : Node A} (r : initConsistent cfg nd = .ok nd') : LF nd' := by
+  unfold initConsistent at r
+  split at r
+  · injection r with r; rw [← r]; rfl
+  · rename_i m hm
+    split at r
+    · injection r with r; rw [← r]; exact hm.symm
+    · split at r
+      · exact absurd r (by simp)
+      · simp only at r
+        exact lf_replayBlocks cfg _ _ { nd with lastFlush := some m } nd' hm.symm r
+
+theorem lf_recover (cfg : Cfg) {img : Image A} {rn : Node A} (r : recover cfg img = .ok rn) : LF rn := by
+  unfold recover at r
+  split at r
+  · exact lf_initConsistent cfg r
+  · split at r
+    · exact absurd r (by simp)
+    · split at r
+      · exact absurd r (by simp)
+      · split at r
+        · exact absurd r (by simp)
+        · exact lf_initConsistent cfg r
+
 end BV.C04
